@@ -60,16 +60,6 @@ theorem feq_iff (a b : Bits) : feq a b = true ↔ a = b := by
 
 /-! ### decoding and `f as i64` -/
 
-/-- exact value of a finite pattern as numerator / denominator (denominator a power of two) -/
-def finiteValue (b : Bits) : Int × Nat :=
-  let e := expField b
-  let m := mantissa b
-  let mag : Nat × Nat :=
-    if e = 0 then (m, 2 ^ 1074)
-    else if e ≥ 1075 then ((2 ^ 52 + m) * 2 ^ (e - 1075), 1)
-    else (2 ^ 52 + m, 2 ^ (1075 - e))
-  (if sign b then -(mag.1 : Int) else (mag.1 : Int), mag.2)
-
 /-- saturation to the 64-bit range -/
 def clamp (x : Int) : Int := if x < i64Min then i64Min else if x > i64Max then i64Max else x
 
@@ -401,6 +391,112 @@ theorem float_from_int_spec (n : Int) (hlo : i64Min ≤ n) (hhi : n ≤ i64Max) 
       · simp only [hneg, decide_false, Bool.false_eq_true, if_false]
         refine ⟨trivial, by omega, fun h => htie (by omega), fun h => ?_⟩
         have := hexact h; omega
+
+/-! ### floor / ceil / round -/
+
+theorem finiteValue_den_pos (x : Bits) : 0 < (finiteValue x).2 := by
+  unfold finiteValue
+  simp only
+  split
+  · exact Nat.pow_pos (by decide)
+  · split
+    · exact Nat.one_pos
+    · exact Nat.pow_pos (by decide)
+
+/-- below exponent field 1075 the numerator has fewer than 53 bits -/
+theorem finiteValue_num_small (x : Bits) (he : expField x < 1075) : (finiteValue x).1.natAbs < 2 ^ 53 := by
+  have hm := mantissa_lt x
+  unfold finiteValue
+  simp only
+  have hge : ¬ expField x ≥ 1075 := by omega
+  by_cases h0 : expField x = 0
+  · simp only [h0, if_true]
+    cases sign x <;> simp <;> omega
+  · simp only [h0, hge, if_false]
+    cases sign x <;> simp <;> omega
+
+theorem roundInt_small (mode : Rounding) (n : Int) (d : Nat) (hd : 0 < d) (hn : n.natAbs < 2 ^ 53) :
+    (roundInt mode n d).natAbs ≤ 2 ^ 53 := by
+  cases mode
+  · have := Int.natAbs_ediv_le_natAbs n d
+    simp only [roundInt]; omega
+  · have := Int.natAbs_ediv_le_natAbs (-n) d
+    simp only [roundInt, Int.natAbs_neg] at *; omega
+  · -- (2a + d) / (2d) ≤ a + 1
+    have key : ∀ a : Nat, (2 * a + d) / (2 * d) ≤ a + 1 := by
+      intro a
+      apply Nat.le_of_lt_succ
+      rw [Nat.div_lt_iff_lt_mul (by omega)]
+      have h1 : a ≤ a * d := Nat.le_mul_of_pos_right a hd
+      have e : (a + 1 + 1) * (2 * d) = 2 * (a * d) + 4 * d := by
+        rw [Nat.add_mul, Nat.add_mul, ← Nat.mul_assoc, Nat.mul_comm a 2, Nat.mul_assoc]; omega
+      rw [e]; omega
+    simp only [roundInt]
+    by_cases hs : n ≥ 0
+    · simp only [hs, if_true]
+      have hc : (2 * n + (d : Int)) / (2 * (d : Int)) = (((2 * n.natAbs + d) / (2 * d) : Nat) : Int) := by
+        have : n = (n.natAbs : Int) := by omega
+        rw [this]; simp
+      rw [hc, Int.natAbs_natCast]
+      have := key n.natAbs
+      omega
+    · simp only [hs, if_false, Int.natAbs_neg]
+      have hc : (2 * -n + (d : Int)) / (2 * (d : Int)) = (((2 * n.natAbs + d) / (2 * d) : Nat) : Int) := by
+        have : -n = (n.natAbs : Int) := by omega
+        rw [this]; simp
+      rw [hc, Int.natAbs_natCast]
+      have := key n.natAbs
+      omega
+
+/-- `floor`/`ceil`/`round`: NaN stays NaN; patterns that are already integral are returned; otherwise the
+    result is a finite pattern denoting EXACTLY the integer the exact value rounds to, and a zero result keeps
+    the operand's sign -/
+theorem roundBits_spec (mode : Rounding) (x : Bits) :
+    (isNaN x = true → isNaN (roundBits mode x) = true) ∧
+    (isNaN x = false → expField x ≥ 1075 → roundBits mode x = x) ∧
+    (isNaN x = false → expField x < 1075 →
+      let n := roundInt mode (finiteValue x).1 (finiteValue x).2
+      let r := roundBits mode x
+      isNaN r = false ∧ isInf r = false ∧
+      (finiteValue r).1 = n * (finiteValue r).2 ∧
+      (n = 0 → r = if sign x then 0x8000000000000000 else 0) ∧
+      (n ≠ 0 → sign r = decide (n < 0))) := by
+  refine ⟨?_, ?_, ?_⟩
+  · intro h
+    have hx := toNat_lt x
+    simp only [isNaN, Bool.and_eq_true, decide_eq_true_eq, ne_eq] at h
+    obtain ⟨h1, h2⟩ := h
+    unfold roundBits
+    simp only [isNaN, h1, h2, decide_true, Bool.true_and, ne_eq, not_false_eq_true, if_true, quiet]
+    unfold expField mantissa at *
+    split
+    · rw [UInt64.toNat_ofNat']
+      simp only [Bool.and_eq_true, decide_eq_true_eq, ne_eq]
+      omega
+    · simp only [Bool.and_eq_true, decide_eq_true_eq, ne_eq]
+      omega
+  · intro h he
+    unfold roundBits
+    simp [h, he]
+  · intro h he n r
+    have hge : ¬ expField x ≥ 1075 := by omega
+    have hr : r = if n = 0 then (if sign x then 0x8000000000000000 else 0) else floatFromInt n := by
+      show roundBits mode x = _
+      unfold roundBits
+      simp only [h, hge, if_false, Bool.false_eq_true]
+      rfl
+    by_cases hn0 : n = 0
+    · rw [hr]
+      simp only [hn0, if_true]
+      cases sign x <;> simp <;> decide
+    · have hsmall := roundInt_small mode (finiteValue x).1 (finiteValue x).2 (finiteValue_den_pos x)
+        (finiteValue_num_small x he)
+      have hspec := float_from_int_spec n (by unfold i64Min; omega) (by unfold i64Max; omega)
+      simp only at hspec
+      obtain ⟨h1, h2, h3, h4, _⟩ := hspec
+      rw [hr]
+      simp only [hn0, if_false]
+      exact ⟨h1, h2, h4 hsmall, fun h => absurd h (by simpa using hn0), fun _ => h3⟩
 
 /-! ### the bit-level key -/
 
